@@ -26,7 +26,7 @@ func (matcher *requestResponseMatcher) SetMaxTry(value int) {
 }
 
 func (matcher *requestResponseMatcher) registerRequest(ident string, request *http.Request, captureTime time.Time, captureSize int, protoMinor int) *api.OutputChannelItem {
-	verifhook.Yield("match.req.pre")
+	verifhook.Yield("http.match.req.pre")
 	requestHTTPMessage := api.GenericMessage{
 		IsRequest:   true,
 		CaptureTime: captureTime,
@@ -46,13 +46,13 @@ func (matcher *requestResponseMatcher) registerRequest(ident string, request *ht
 		return matcher.preparePair(&requestHTTPMessage, responseHTTPMessage, protoMinor)
 	}
 
-	verifhook.Yield("match.req.mid")
+	verifhook.Yield("http.match.req.mid")
 	matcher.openMessagesMap.Store(ident, &requestHTTPMessage)
 	return nil
 }
 
 func (matcher *requestResponseMatcher) registerResponse(ident string, response *http.Response, captureTime time.Time, captureSize int, protoMinor int) *api.OutputChannelItem {
-	verifhook.Yield("match.res.pre")
+	verifhook.Yield("http.match.res.pre")
 	responseHTTPMessage := api.GenericMessage{
 		IsRequest:   false,
 		CaptureTime: captureTime,
@@ -72,7 +72,7 @@ func (matcher *requestResponseMatcher) registerResponse(ident string, response *
 		return matcher.preparePair(requestHTTPMessage, &responseHTTPMessage, protoMinor)
 	}
 
-	verifhook.Yield("match.res.mid")
+	verifhook.Yield("http.match.res.mid")
 	matcher.openMessagesMap.Store(ident, &responseHTTPMessage)
 	return nil
 }
